@@ -30,6 +30,7 @@ import (
 const (
 	cAssemble   = "assemble"
 	cReadSeeker = "readseeker"
+	cSparse     = "sparse" // the copy-on-read sparse file behind mount-sparse: one ReadAt over a range
 	cUnTarIndex = "untarindex"
 )
 
@@ -47,7 +48,7 @@ type Pipe struct {
 
 func genPipe(t *rapid.T, inconsistent bool) *Pipe {
 	p := &Pipe{}
-	p.Consumer = rapid.SampledFrom([]string{cAssemble, cReadSeeker, cUnTarIndex}).Draw(t, "consumer")
+	p.Consumer = rapid.SampledFrom([]string{cAssemble, cReadSeeker, cUnTarIndex, cSparse}).Draw(t, "consumer")
 	n := rapid.IntRange(1, 8).Draw(t, "nchunks")
 	for i := 0; i < n; i++ {
 		limit := 3000
@@ -68,6 +69,9 @@ func genPipe(t *rapid.T, inconsistent bool) *Pipe {
 	}
 	if p.Consumer == cReadSeeker && rapid.IntRange(0, 2).Draw(t, "doseek") == 0 {
 		p.Seek = rapid.IntRange(1, 1<<20).Draw(t, "seek")
+	}
+	if p.Consumer == cSparse {
+		p.Seek = rapid.IntRange(0, 1<<20).Draw(t, "range")
 	}
 	if inconsistent {
 		p.Pre = ""
@@ -429,6 +433,46 @@ func consumeNow(p *Pipe, pd *pipeData, store desync.Store, rs *desync.IndexPos) 
 			return err, ""
 		}
 		return nil, diffBytes(want, buf.Bytes())
+	case cSparse:
+		dir := hx.Scratch("c03s")
+		defer os.RemoveAll(dir)
+		sf, err := desync.NewSparseFile(filepath.Join(dir, "cache"), pd.idx, store, desync.SparseFileOptions{})
+		if err != nil {
+			return err, ""
+		}
+		h, err := sf.Open()
+		if err != nil {
+			return err, ""
+		}
+		defer h.Close()
+		// one read that starts in the chunk before the victim (when there is one) and ends in the
+		// chunk after it, or, for odd selectors, the whole blob
+		from, to := int64(0), int64(len(pd.blob))
+		if p.Seek%2 == 0 && len(pd.idx.Chunks) > 0 {
+			v := pd.victim
+			lo, hi := v, v
+			if v > 0 {
+				lo = v - 1
+			}
+			if v < len(pd.idx.Chunks)-1 {
+				hi = v + 1
+			}
+			a, b := pd.idx.Chunks[lo], pd.idx.Chunks[hi]
+			from = int64(a.Start) + int64(p.Seek/2)%int64(a.Size)
+			to = int64(b.Start) + 1 + int64(p.Seek/7)%int64(b.Size)
+			if to > int64(len(pd.blob)) {
+				to = int64(len(pd.blob))
+			}
+			if from > to {
+				from = to
+			}
+		}
+		buf := make([]byte, to-from)
+		n, rerr := h.ReadAt(buf, from)
+		if rerr != nil && rerr != io.EOF {
+			return rerr, ""
+		}
+		return nil, diffBytes(pd.blob[from:to], buf[:n])
 	case cUnTarIndex:
 		var buf bytes.Buffer
 		tw := desync.NewTarWriter(&buf)
@@ -478,7 +522,7 @@ func diffBytes(want, got []byte) string {
 
 func runPipeline(c Case) (o hx.Outcome) {
 	p := c.Pipe
-	if p.Consumer != cAssemble && p.Consumer != cUnTarIndex {
+	if p.Consumer != cAssemble && p.Consumer != cUnTarIndex && p.Consumer != cSparse {
 		p.Consumer = cReadSeeker
 	}
 	inconsistent := c.Mode == mInconsistent
@@ -550,7 +594,7 @@ func runPipeline(c Case) (o hx.Outcome) {
 			o.Fail("C03:"+p.Consumer+":panic", "the consumer panicked on an index entry whose size differs from the (valid) chunk: %s — %s", clip(diff), where)
 		case err == errHang:
 			o.Fail("C03:"+p.Consumer+":hang", "the consumer spun for %s of processor time without returning on an index entry whose size differs from the (valid) chunk — %s", spinBudget, where)
-		case err == nil && p.Consumer == cReadSeeker && !fetched:
+		case err == nil && (p.Consumer == cReadSeeker || p.Consumer == cSparse) && !fetched:
 			// the reader was positioned behind the victim and never loaded it: it cannot know,
 			// and what it returned is consistent with every chunk it did see
 			o.Class("inconsistent:victim-not-read")
